@@ -281,7 +281,7 @@ func c18EnumUnit(c *mon.Ctx, r *mon.Rng, per int) {
 		ms := &model.Schema{Root: inlineRoot}
 		st := model.Style{}
 		if r.Chance(1, 3) {
-			st = model.Style{MultiLine: r.Intn(3), QuoteNames: r.Bool(), NL: mon.Pick(r, []string{"\n", "\r\n"})}
+			st = model.Style{MultiLine: r.Intn(4), QuoteNames: r.Bool(), NL: mon.Pick(r, []string{"\n", "\r\n"})}
 		}
 		inlineSp := lib.Spec{Text: st.Render(inlineRoot)}
 		namedSp := lib.Spec{Text: st.Render(namedRoot), Rules: []lib.RuleDef{{Name: "@E", Text: et.Text}}}
